@@ -3,11 +3,13 @@ package harness
 import (
 	"fmt"
 	"strings"
+	"time"
 
 	"github.com/B1NARY-GR0UP/originium"
 
 	"verif/shim/vos"
 	"verif/shim/vsync"
+	"verif/shim/vtime"
 	"verif/vrace"
 	"verif/vsched"
 )
@@ -379,7 +381,22 @@ type apiScen struct {
 	Progs []txProg
 	Order []int
 	Eager bool
+	// Settled: before the programs start, a read-only transaction begins and ends at the current timestamp and the
+	// engine runs until nothing is enabled, so that both watermarks stand AT the newest timestamp (a state the engine
+	// is in after every idle moment, and in which the programs' transactions share a read timestamp that the read
+	// watermark has already reached); implies Eager
+	Settled bool
+	// Reopen: the store is closed and opened again after the initial commits, so the programs run on a recovered
+	// store (timestamps continued from the files, watermarks initialised by recovery, data in sstables); implies Eager
+	Reopen bool
 }
+
+type apiReopenImage struct {
+	fs   *vos.FS
+	init kvState
+}
+
+var apiReopenImages = map[string]*apiReopenImage{}
 
 func apiScenario(sc apiScen, obs *txnObs) vsched.Scenario {
 	return func() (func(), func(*vsched.Exec), func(vsched.Result) error) {
@@ -387,13 +404,45 @@ func apiScenario(sc apiScen, obs *txnObs) vsched.Scenario {
 		h := obs.hist
 		main := func() {
 			vsched.Freeze()
-			db, err := originium.Open("/d", sc.Cfg.config())
-			if err != nil {
-				panic(err)
+			var db *originium.DB
+			var err error
+			ck := fmt.Sprint(sc.Cfg, sc.Init)
+			if img := apiReopenImages[ck]; sc.Reopen && img != nil {
+				// the directory a clean Close left after the initial commits is the same in every execution of this plan:
+				// it is produced by the engine once per worker process and copied afterwards
+				vos.SetFS(img.fs.Clone())
+				for k, v := range img.init {
+					obs.init[k] = v
+				}
+			} else {
+				db, err = originium.Open("/d", sc.Cfg.config())
+				if err != nil {
+					panic(err)
+				}
+				for i, p := range sc.Init {
+					rec := runTxn(db, &history{}, fmt.Sprintf("init%d", i), p, nil)
+					obs.init.apply(rec.writes())
+				}
+				if sc.Reopen {
+					db.Close()
+					im := &apiReopenImage{fs: vos.CurFS().Clone(), init: kvState{}}
+					for k, v := range obs.init {
+						im.init[k] = v
+					}
+					apiReopenImages[ck] = im
+				}
 			}
-			for i, p := range sc.Init {
-				rec := runTxn(db, &history{}, fmt.Sprintf("init%d", i), p, nil)
-				obs.init.apply(rec.writes())
+			if sc.Reopen {
+				vtime.Set(vtime.Epoch().Add(time.Second))
+				db, err = originium.Open("/d", sc.Cfg.config())
+				if err != nil {
+					panic(err)
+				}
+				vsched.WaitQuiescent()
+			}
+			if sc.Settled {
+				db.View(func(tx *originium.Txn) error { tx.Get(scenKey("x")); return nil })
+				vsched.WaitQuiescent()
 			}
 			vsched.Thaw()
 			type live struct {
@@ -457,7 +506,7 @@ func apiScenario(sc apiScen, obs *txnObs) vsched.Scenario {
 					l.rec.EndRet = h.tick()
 					l.rec.Done = true
 				}
-				if sc.Eager {
+				if sc.Eager || sc.Settled || sc.Reopen {
 					vsched.WaitQuiescent()
 				}
 			}
@@ -535,7 +584,7 @@ func apiPrograms(keys []string, maxOps int, withDiscard bool) []txProg {
 }
 
 // exploreAPI runs every interleaving of the given program tuple.
-func exploreAPI(c *Ctx, cfg dbCfg, init []txProg, progs []txProg, eager bool, oracles ...txnOracle) {
+func exploreAPI(c *Ctx, cfg dbCfg, init []txProg, progs []txProg, eager, settled, reopen bool, oracles ...txnOracle) {
 	lens := make([]int, len(progs))
 	for i, p := range progs {
 		lens[i] = len(p.Ops) + 2
@@ -545,7 +594,7 @@ func exploreAPI(c *Ctx, cfg dbCfg, init []txProg, progs []txProg, eager bool, or
 			return
 		}
 		var obs txnObs
-		sc := apiScen{Cfg: cfg, Init: init, Progs: progs, Order: append([]int(nil), order...), Eager: eager}
+		sc := apiScen{Cfg: cfg, Init: init, Progs: progs, Order: append([]int(nil), order...), Eager: eager, Settled: settled, Reopen: reopen}
 		inner := apiScenario(sc, &obs)
 		main, mon, check := inner()
 		res := vsched.Run(vsched.Default{}, vsched.RunOpts{MaxSteps: 200000, Monitor: mon}, main)
@@ -577,8 +626,8 @@ func exploreAPI(c *Ctx, cfg dbCfg, init []txProg, progs []txProg, eager bool, or
 			if oe, ok := err.(*OracleErr); ok {
 				sig, detail = oe.Sig, oe.Detail
 			}
-			c.Violation(sig, fmt.Sprintf("programs %v, API order %v, config %s, eager=%v\n%s", progs, order, cfg, eager, detail), nil,
-				map[string]any{"cfg": cfg, "init": init, "progs": progs, "order": order, "eager": eager})
+			c.Violation(sig, fmt.Sprintf("programs %v, API order %v, config %s, eager=%v settled=%v reopened=%v\n%s", progs, order, cfg, eager, settled, reopen, detail), nil,
+				map[string]any{"cfg": cfg, "init": init, "progs": progs, "order": order, "eager": eager, "settled": settled, "reopen": reopen})
 		}
 	})
 }
@@ -603,15 +652,17 @@ func conflictPattern(h *history) string {
 
 func replayAPI(c *Ctx, oracles ...txnOracle) {
 	var rc struct {
-		Cfg   dbCfg    `json:"cfg"`
-		Init  []txProg `json:"init"`
-		Progs []txProg `json:"progs"`
-		Order []int    `json:"order"`
-		Eager bool     `json:"eager"`
+		Cfg     dbCfg    `json:"cfg"`
+		Init    []txProg `json:"init"`
+		Progs   []txProg `json:"progs"`
+		Order   []int    `json:"order"`
+		Eager   bool     `json:"eager"`
+		Settled bool     `json:"settled"`
+		Reopen  bool     `json:"reopen"`
 	}
 	jsonUnmarshal(c.Replay.Case, &rc)
 	var obs txnObs
-	main, mon, check := apiScenario(apiScen{Cfg: rc.Cfg, Init: rc.Init, Progs: rc.Progs, Order: rc.Order, Eager: rc.Eager}, &obs)()
+	main, mon, check := apiScenario(apiScen{Cfg: rc.Cfg, Init: rc.Init, Progs: rc.Progs, Order: rc.Order, Eager: rc.Eager, Settled: rc.Settled, Reopen: rc.Reopen}, &obs)()
 	res := vsched.Run(vsched.Default{}, vsched.RunOpts{MaxSteps: 200000, Monitor: mon, KeepLog: false}, main)
 	err := check(res)
 	for _, or := range oracles {
